@@ -51,15 +51,42 @@ structure Des where
   body : Body
   deriving DecidableEq, Repr
 
+/-- PVTYPE of an image subheader -/
+inductive PvType where
+  | int | b | si | r | c
+  deriving DecidableEq, Repr
+
+/-- ISUBCAT of a band, as far as ComplexNITFDetails looks: exactly "I", "Q", "M", "P", or anything else -/
+inductive SubCat where
+  | i | q | m | p | other
+  deriving DecidableEq, Repr
+
+/-- what `ComplexNITFDetails._check_band_details` (other_nitf.py:945-1012) reads of an image subheader:
+    ICAT in {SAR, SARIQ}; PVTYPE; the ISUBCAT of each band, in order -/
+structure ImgHdr where
+  sar : Bool
+  pv : PvType
+  bands : List SubCat
+  deriving DecidableEq, Repr
+
 /-- image segment, by what the readers test:
-    `sicdSeg`   ICAT SAR/SARIQ, PVTYPE R/SI/C with a complex (I,Q)/(M,P) band pair  (what SICDWriter emits)
-    `siddSeg k` ICAT SAR, IID1 = "SIDD" ++ (k+1 as three digits) ++ ..., integer non-complex bands (what SIDDWriter emits for product k, 0-based)
-    `other`     ICAT outside {SAR, SARIQ} (legend, VIS, ...): unsupported for all three NITF family readers -/
+    `sicdSeg`   ICAT SAR/SARIQ, PVTYPE R/SI with the band pair (I,Q)  (what SICDWriter emits)
+    `siddSeg k` ICAT SAR, IID1 = "SIDD" ++ (k+1 as three digits) ++ ..., one integer band (what SIDDWriter emits for product k, 0-based)
+    `other`     ICAT outside {SAR, SARIQ} (legend, VIS, ...): unsupported for all three NITF family readers
+    `gen h`     any other image segment of a general NITF, by the header fields the fallback complex opener reads -/
 inductive Img where
   | sicdSeg
   | siddSeg (k : Nat)
   | other
+  | gen (h : ImgHdr)
   deriving DecidableEq, Repr
+
+/-- the header fields of each class -/
+def Img.hdr : Img → ImgHdr
+  | .sicdSeg => ⟨true, .r, [.i, .q]⟩
+  | .siddSeg _ => ⟨true, .int, [.other]⟩
+  | .other => ⟨false, .int, [.other]⟩
+  | .gen h => h
 
 structure Desc where
   magic : Magic
@@ -175,14 +202,59 @@ def sicdIsA (d : Desc) : Decision :=
 def sioIsA (a : Arg) (d : Desc) : Decision :=
   if a == .path && d.magic == .sio then .accept .sio else .reject
 
-/-- other_nitf.final_attempt: not for file objects; an integer-valued SAR segment makes extract_sicd raise
-    ValueError, which is caught (-> None); otherwise needs one complex segment -/
+/-! ## which image segments the fallback complex opener takes (other_nitf.py `_check_band_details`, `extract_sicd.get_image_data`) -/
+
+/-- `bands[0].ISUBCAT + bands[1].ISUBCAT in ['IQ', 'QI', 'MP', 'PM']` -/
+def orderIQ (x y : SubCat) : Bool := (x == .i && y == .q) || (x == .q && y == .i)
+def orderMP (x y : SubCat) : Bool := (x == .m && y == .p) || (x == .p && y == .m)
+def validOrder (x y : SubCat) : Bool := orderIQ x y || orderMP x y
+
+/-- `for i in range(2, len(bands), 2): order == bands[i].ISUBCAT + bands[i+1].ISUBCAT`, on the bands after the first pair -/
+def pairsFollow (x y : SubCat) : List SubCat → Bool
+  | a :: b :: rest => a == x && b == y && pairsFollow x y rest
+  | _ => true
+
+/-- outcome of `_check_band_details` for one image segment:
+    `skip`    status False (not a complex segment)
+    `take`    status True, a SICD structure is recorded
+    `refuse`  extract_sicd raises ValueError ("unhandled PVTYPE"): the whole file is given up (final_attempt catches ValueError)
+    `muddled` the PVTYPE does not fit the band labelling of a multi-pair segment: status False AND True are both appended (the
+              branch logs an error and does not return); the reader built from such details refuses the segment (ValueError)
+    `crash`   no band at all: IndexError -/
+inductive BandOut where
+  | skip | take | refuse | muddled | crash
+  deriving DecidableEq, Repr
+
+def checkBand (h : ImgHdr) : BandOut :=
+  if !h.sar then .skip
+  else if !(h.pv == .c || h.pv == .r || h.pv == .si) then .refuse
+  else if h.bands.length % 2 == 1 then (if h.pv != .c then .skip else .take)
+  else match h.bands with
+    | x :: y :: rest =>
+      if !validOrder x y then .skip
+      else if rest.isEmpty then .take
+      else if !pairsFollow x y rest then .skip
+      else if (orderIQ x y && !(h.pv == .si || h.pv == .r)) || (orderMP x y && !(h.pv == .int || h.pv == .r)) then .muddled
+      else .take
+    | _ => .crash
+
+/-- `_find_complex_image_segments` + `len(self.sicd_meta) == 0` + ComplexNITFReader, handler of final_attempt included:
+    the segments are examined in file order; `found` = some segment has been taken -/
+def scanBands : List ImgHdr → Bool → Decision
+  | [], found => if found then .accept .complexNitf else .reject
+  | h :: rest, found =>
+    match checkBand h with
+    | .skip => scanBands rest found
+    | .take => scanBands rest true
+    | .refuse => .reject
+    | .muddled => .reject
+    | .crash => .raises
+
+/-- other_nitf.final_attempt: not for file objects; then ComplexNITFDetails on the image subheaders in file order -/
 def finalAttempt (a : Arg) (d : Desc) : Decision :=
   if a == .fileobj then .reject
   else if !nitfOk d.magic then .reject
-  else if d.images.any isSiddSeg then .reject
-  else if d.images.any (· == .sicdSeg) then .accept .complexNitf
-  else .reject
+  else scanBands (d.images.map Img.hdr) false
 
 /-- open_complex: registered openers in discovery order (..., sicd, sio, ...) then the final attempt -/
 def openComplex (a : Arg) (d : Desc) : Decision :=
